@@ -88,7 +88,7 @@ def run_sphere(case):
     scale = np.abs(b).max()
     err = np.abs(a - b).max() / scale
     met["sphere_limit_%s" % case["mode"]] = err
-    if err > tol * TOLX:
+    if not (err <= tol * TOLX):
         return Outcome(failure("sphere_limit", "%s: T-matrix vs Lorenz-Mie differ by %.3g (rel), x=%.4g, azimuths %r" % (
             case["mode"], err, s["x"], [round(v, 3) for v in ph.tolist()]), mode=case["mode"], as_spheroid=case["as_spheroid"]), True, labels)
     offplane = np.any((np.abs(np.sin(ph)) > 0.1) & (th > 0.2))
@@ -178,7 +178,7 @@ def run_sym(case):
     if not (np.all(np.isfinite(a)) and np.all(np.isfinite(b))):
         return Outcome(failure("nonfinite", "Tmatrix field not finite", kind=case["kind"]), True, labels)
     err = np.abs(a - b).max() / np.abs(a).max()
-    if err > 1e-5 * TOLX:
+    if not (err <= 1e-5 * TOLX):
         return Outcome(failure("axial_symmetry", "%s: field changes by %.3g (rel) under %s" % (case["kind"], err, case["rel"]),
                                rel=case["rel"]), True, labels)
     return Outcome(None, abs(math.log(case["aspect"])) > 0.05 and math.sin(be) > 0.05, labels, metrics={"sym_" + case["rel"]: err})
